@@ -16,6 +16,7 @@ package io
 import (
 	"math"
 	"reflect"
+	"strconv"
 
 	"github.com/andot/complexconv"
 	"github.com/modern-go/reflect2"
@@ -35,6 +36,43 @@ func (dec *Decoder) stringToComplex128(s string) complex128 {
 		dec.Error = err
 	}
 	return c
+}
+
+// readComplexHead reads the head of the 2-element list a complex number with a non-zero
+// imaginary part is encoded as.
+func (dec *Decoder) readComplexHead() (index int, ok bool) {
+	if count := dec.ReadInt(); count != 2 {
+		if dec.Error == nil {
+			dec.Error = DecodeError("hprose/io: can not parse a list of " + strconv.Itoa(count) + " elements to complex")
+		}
+		return 0, false
+	}
+	dec.AddReference(nil)
+	return dec.refer.Last(), true
+}
+
+func (dec *Decoder) readComplex64() (c complex64) {
+	if index, ok := dec.readComplexHead(); ok {
+		var r, i float32
+		dec.decodeFloat32(float32Type, dec.NextByte(), &r)
+		dec.decodeFloat32(float32Type, dec.NextByte(), &i)
+		dec.Skip()
+		c = complex(r, i)
+		dec.SetReference(index, c)
+	}
+	return
+}
+
+func (dec *Decoder) readComplex128() (c complex128) {
+	if index, ok := dec.readComplexHead(); ok {
+		var r, i float64
+		dec.decodeFloat64(float64Type, dec.NextByte(), &r)
+		dec.decodeFloat64(float64Type, dec.NextByte(), &i)
+		dec.Skip()
+		c = complex(r, i)
+		dec.SetReference(index, c)
+	}
+	return
 }
 
 func (dec *Decoder) decodeComplex64(t reflect.Type, tag byte, p *complex64) {
@@ -63,6 +101,8 @@ func (dec *Decoder) decodeComplex64(t reflect.Type, tag byte, p *complex64) {
 		} else {
 			*p = dec.stringToComplex64(dec.ReadString())
 		}
+	case TagList:
+		*p = dec.readComplex64()
 	default:
 		dec.defaultDecode(t, p, tag)
 	}
@@ -84,7 +124,7 @@ func (dec *Decoder) decodeComplex128(t reflect.Type, tag byte, p *complex128) {
 		return
 	}
 	switch tag {
-	case TagEmpty, TagFalse:
+	case TagNull, TagEmpty, TagFalse:
 		*p = 0
 	case TagTrue:
 		*p = 1
@@ -104,6 +144,8 @@ func (dec *Decoder) decodeComplex128(t reflect.Type, tag byte, p *complex128) {
 		} else {
 			*p = dec.stringToComplex128(dec.ReadString())
 		}
+	case TagList:
+		*p = dec.readComplex128()
 	default:
 		dec.defaultDecode(t, p, tag)
 	}
